@@ -190,7 +190,14 @@ def build(W, p):
     md = p["metadata"]
     itgs = [W.integral(e, p["itype"], m[0], p["subdomain_id"], md, None, extra)]
     if p["second_integral"]:
-        itgs.append(W.integral(W.op("Product", g, v), "cell", m[0], 7))
+        # the second integrand reuses the Index objects of the first one (one `i, j = indices(2)` per file is
+        # the common style) and meets them in the opposite order
+        shared = W.op("IndexSum", W.op("IndexSum", W.op("Product", idx(B, j, i), W.op("Product", idx(w, j), idx(w, i), **scal), **scal), W.multiindex(i), **scal), W.multiindex(j), **scal)
+        itgs.append(W.integral(W.op("Sum", W.op("Product", g, v), shared, **scal), "cell", m[0], 7))
+        # ... and so does an integral that sorts after the first one (integrals are hashed in sorted order)
+        # (summed in the other nesting order, so that its canonical index numbering differs from the other integrands')
+        shared2 = W.op("IndexSum", W.op("IndexSum", W.op("Product", idx(A, j, i), W.op("Product", idx(w, j), idx(w, i), **scal), **scal), W.multiindex(j), **scal), W.multiindex(i), **scal)
+        itgs.append(W.integral(W.op("Product", shared2, v, **scal), "interior_facet" if p["itype"] != "interior_facet" else "vertex", m[0], 7))
     return W.form(itgs)
 
 
